@@ -119,3 +119,11 @@ MANIFEST = {
  "text": "Interleaving model at the granularity of single atomic operations (any number of recorder threads, one collector serialised by the result mutex): the invariant lifetime + period + held = completed records per outcome, dropped counter exact, metric samples = completed + in-flight, holds after every event sequence (C01_counts_conserved, induction over the schedule, no bound on threads or length); at quiescence the final totals and the metric samples equal the number of passed / failed / dropped iterations (C01_final_exact); records touch only their own outcome (C01_outcome_routed*). The pre-repair collector's lost update is a kernel-checked schedule (legacy_lost_update) that is replayed on the real code through the progress.collect hook. C17's aggregation theorems cover the hook-granularity model used by the scripted tie.",
  "note": "Go's sync/atomic sequential consistency, Prometheus' Observe and the result mutex are assumed; the scripted tie controls interleavings only at the progress.collect yield point, finer ones are covered by the theorem, the regenerated atomic-operation skeleton and the hook-free stress (exploration in support).",
  "technique": "Lean 4 inductive invariant over an interleaving semantics + scripted-schedule correspondence through verif hooks"}
+
+
+def signature(rec):
+    """known finding D23: a scenario that times a stage named `iteration` adds its samples to the iteration series"""
+    c = rec["case"]
+    if c.startswith("cli ") and " timestage=iteration" in c:
+        return "C16:stage-named-iteration"
+    return c
